@@ -12,7 +12,7 @@ use fil_actor_market::ext::miner::{PieceChange, SectorChanges, SectorContentChan
 use fil_actor_market::balance_table::BalanceTable;
 use fil_actors_runtime::runtime::Policy;
 use fil_actors_runtime::test_utils::make_piece_cid;
-use fil_actors_runtime::{BURNT_FUNDS_ACTOR_ADDR, STORAGE_MARKET_ACTOR_ADDR};
+use fil_actors_runtime::STORAGE_MARKET_ACTOR_ADDR;
 use fvm_ipld_bitfield::BitField;
 use fvm_ipld_encoding::RawBytes;
 use fvm_shared::ActorID;
@@ -714,6 +714,12 @@ impl Scenario for Market {
                     v.push(Act::Activate { by: Who::M1, via: Via::Scc, sectors: vec![(1, 0, vec![d]), (3, 0, vec![d])], bad_piece: false });
                     v.push(Act::Activate { by: Who::M1, via: Via::Batch, sectors: vec![(1, 0, vec![d, l.next_id])], bad_piece: false });
                 }
+            }
+            if unact.len() >= 2 && self.cfg.activate_variants {
+                // a repeated id with another id in between (non-adjacent repeat)
+                let rep = vec![unact[0], unact[1], unact[0]];
+                v.push(Act::Activate { by: Who::M1, via: Via::Batch, sectors: vec![(5, 0, rep.clone())], bad_piece: false });
+                v.push(Act::Activate { by: Who::M1, via: Via::Scc, sectors: vec![(5, 0, rep)], bad_piece: false });
             }
             if unact.len() >= 2 {
                 v.push(Act::Activate { by: Who::M1, via: Via::Batch, sectors: vec![(4, 0, unact.clone())], bad_piece: false });
